@@ -1,10 +1,11 @@
 #!/usr/bin/env bash
-# usage: tools/seeded_import.sh <Cxx>   copies /tmp/seedout/<Cxx>/<i>/ to /verif/seeded/<Cxx>-<i>/ and normalises demo_cmd
+# usage: tools/seeded_import.sh <Cxx> [srcroot=/tmp/seedout] [offset=0]
+# copies <srcroot>/<Cxx>/<i>/ to /verif/seeded/<Cxx>-<i+offset>/ and normalises demo_cmd
 set -u
-P="$1"
-for d in /tmp/seedout/$P/*/; do
+P="$1"; SRC="${2:-/tmp/seedout}"; OFF="${3:-0}"
+for d in "$SRC/$P"/*/; do
   i=$(basename "$d"); [ -f "$d/patch.diff" ] || continue
-  dst=/verif/seeded/$P-$i; mkdir -p "$dst"; cp -r "$d"/* "$dst"/
+  dst=/verif/seeded/$P-$((i+OFF)); mkdir -p "$dst"; cp -r "$d"/* "$dst"/
   python3 - "$dst/meta.json" <<'PY'
 import json,sys,re
 p=sys.argv[1]; m=json.load(open(p))
